@@ -241,10 +241,12 @@ struct QueueBox {
 	~QueueBox() { p->~Queue(); }
 	Queue & get() { return *p; }
 	// replace the queue by a copy (or move) of itself constructed in storage filled with `fill`
-	void rebuild(bool move, int fill) {
+	template <typename F>
+	void rebuild(bool move, int fill, F beforeDestroy) {
 		int o = 1 - cur;
 		std::memset(storage[o], fill, sizeof(Queue));
 		Queue * n = move ? new (storage[o]) Queue(std::move(*p)) : new (storage[o]) Queue(*p);
+		beforeDestroy();     // objects that refer to the old queue (DisableQueueNotify) end before it does
 		p->~Queue();
 		p = n; cur = o;
 	}
@@ -271,6 +273,7 @@ struct World {
 	std::map<long, long> rw;                          // filter cb -> delta
 	std::vector<std::string> out;
 	std::vector<long> dispatchKeyStack;               // key of the dispatch currently running (for key integrity)
+	std::vector<std::unique_ptr<Queue::DisableQueueNotify>> dqn;   // live DisableQueueNotify objects of the current queue
 
 	explicit World(const Script & s) : script(&s), box(), nkeys(s.nlists) {
 		g_cciM = g_cciR = 0; g_policyMoved = 0;
@@ -377,7 +380,7 @@ struct World {
 			// pending events are not copied; listeners and filters are, as new nodes: they get fresh ids in
 			// (event, list) order, filters last
 			bool mv = op == "qmove";
-			box.rebuild(mv, (int)c.n(1));
+			box.rebuild(mv, (int)c.n(1), [this]() { dqn.clear(); });
 			if(!mv) {
 				handles.clear(); fhandles.clear();
 				long base = nextId;
@@ -399,6 +402,8 @@ struct World {
 			res("unit");
 		}
 		else if(op == "emptyq") res(q.emptyQueue() ? "true" : "false");
+		else if(op == "dqnb") { dqn.emplace_back(new Queue::DisableQueueNotify(box.p)); res("unit"); }
+		else if(op == "dqne") { if(!dqn.empty()) dqn.pop_back(); res("unit"); }
 		else out.push_back("bad-op " + op);
 	}
 
@@ -416,7 +421,7 @@ struct World {
 		out.push_back(s);
 		for(auto it = q.freeList.begin(); it != q.freeList.end(); ++it) { ++nfree; if(!it->empty()) bad = true; }
 		out.push_back("slots " + std::to_string(nq) + " " + std::to_string(nfree) + " " + std::to_string((int)q.queueEmptyCounter.load())
-			+ (bad ? " slotbad" : ""));
+			+ " " + std::to_string((int)q.queueNotifyCounter.load()) + (bad ? " slotbad" : ""));
 		for(int k = 0; k < nkeys; ++k) {
 			std::string l = "lst " + std::to_string(k) + " :";
 			q.forEach(mkKey(k), [&l](const Queue::Handle &, const Queue::Callback & cb) {
